@@ -121,7 +121,7 @@ func checkC01(p *Prog, res *Result, tier string) {
 	res.rule("C01-R3", "the expected value of each index CAS has an accepted provenance and guard", 4)
 	res.rule("C01-R4", "the tombstone-writing batch is committed only on the false branch of newRevision <= modRevision", 1)
 	res.rule("C01-R5", "no delete / compare-and-delete is reachable from the write entry points (failure leaves the key unchanged)", 4)
-	res.rule("C01-R6", "every engine evaluates CAS / PutIfNotExist atomically with the write: compare-before-write, one engine commit, memkv lock held from BeginBatchWrite to Commit (C11-R1/R2)", 12)
+	res.rule("C01-R6", "every engine evaluates CAS / PutIfNotExist atomically with the write: compare-before-write, one engine commit, memkv lock held from BeginBatchWrite to Commit (C11-R1/R2); the metrics wrapper forwards conditional operations unchanged (C11-R5)", 12)
 
 	// ---- R1 ----
 	for _, b := range p.batches() {
@@ -277,7 +277,9 @@ func checkC01(p *Prog, res *Result, tier string) {
 	checkC11(p, sub11, tier)
 	for _, o := range sub11.Obls {
 		if (o.Rule == "C11-R1" && (strings.Contains(o.Construct, "CAS") || strings.Contains(o.Construct, "PutIfNotExist"))) ||
-			(o.Rule == "C11-R2" && (strings.Contains(o.Construct, "Commit:") || strings.Contains(o.Construct, "memkv:"))) {
+			(o.Rule == "C11-R2" && (strings.Contains(o.Construct, "Commit:") || strings.Contains(o.Construct, "memkv:"))) ||
+			// the metrics wrapper in front of every engine hands the conditional operations on unchanged
+			(o.Rule == "C11-R5" && (strings.HasSuffix(o.Construct, ".CAS") || strings.HasSuffix(o.Construct, ".PutIfNotExist") || strings.HasSuffix(o.Construct, ".DelCurrent") || strings.HasSuffix(o.Construct, ".Commit"))) {
 			res.add("C01-R6", o.Rule+" "+o.Construct, o.Status, o.Pos, o.Detail)
 		}
 	}
